@@ -56,6 +56,74 @@ fn rstr(s: &str) -> RVal {
     RVal::Str(s.to_string())
 }
 
+
+/// The value a composite field has when it is null, from the spec's `default` attribute.
+fn default_rval(fd: &refamqp::tables::Field) -> Option<RVal> {
+    use refamqp::tables::FType;
+    let d = fd.default?;
+    Some(match (fd.ty, d) {
+        (FType::Bool, "false") => RVal::Bool(false),
+        (FType::Bool, "true") => RVal::Bool(true),
+        (FType::Ubyte, "mixed") => RVal::Ubyte(2),
+        (FType::Ubyte, "first") => RVal::Ubyte(0),
+        (FType::Uint, "none") => RVal::Uint(0),
+        (FType::Sym, s) => RVal::Sym(s.as_bytes().to_vec()),
+        (FType::Ubyte, n) => RVal::Ubyte(n.parse().ok()?),
+        (FType::Ushort, n) => RVal::Ushort(n.parse().ok()?),
+        (FType::Uint, n) => RVal::Uint(n.parse().ok()?),
+        (FType::Ulong, n) => RVal::Ulong(n.parse().ok()?),
+        _ => return None,
+    })
+}
+
+/// Canonical form of a value for comparing composites on the wire with what was sent: inside every known
+/// composite (at any depth) a field that carries its default value explicitly is the same as a null field, and
+/// trailing nulls are the same as absent fields.
+pub fn canon_defaults(v: &RVal) -> RVal {
+    match v {
+        RVal::Described(d, body) => {
+            let body2 = match (&**body, refamqp::tables::composite_by_descriptor(d)) {
+                (RVal::List(items), Some(comp)) => {
+                    let mut out: Vec<RVal> = items
+                        .iter()
+                        .enumerate()
+                        .map(|(i, x)| {
+                            let c = canon_defaults(x);
+                            match comp.fields.get(i).and_then(default_rval) {
+                                Some(dv) if dv == c => RVal::Null,
+                                _ => c,
+                            }
+                        })
+                        .collect();
+                    while out.last() == Some(&RVal::Null) {
+                        out.pop();
+                    }
+                    RVal::List(out)
+                }
+                (other, _) => canon_defaults(other),
+            };
+            RVal::Described(d.clone(), Box::new(body2))
+        }
+        RVal::List(l) => RVal::List(l.iter().map(canon_defaults).collect()),
+        RVal::Map(m) => RVal::Map(m.iter().map(|(k, x)| (canon_defaults(k), canon_defaults(x))).collect()),
+        RVal::Array(t, e) => RVal::Array(t.clone(), e.iter().map(canon_defaults).collect()),
+        other => other.clone(),
+    }
+}
+
+/// does the value found on the wire satisfy the expectation for one field?
+pub fn field_ok(exp: &Exp, got: &RVal) -> bool {
+    let eq = |a: &RVal, b: &RVal| vlib::corpus::rval_eq_modulo_empty_array(&canon_defaults(a), &canon_defaults(b));
+    match exp {
+        Exp::Is(r) => eq(r, got),
+        Exp::NullOr(r) => *got == RVal::Null || eq(r, got),
+        Exp::Multi(v) => match got {
+            RVal::Array(_, e) => e == v,
+            single => v.len() == 1 && &v[0] == single,
+        },
+    }
+}
+
 impl B {
     fn new(mask: u64, alt: bool) -> Self {
         B {
